@@ -27,45 +27,83 @@ func vShards(d *vCtx, n int, child func(i, n int) error) error {
 	var wg sync.WaitGroup
 	errs := make([]error, n)
 	outs := make([]string, n)
+	var crashMu sync.Mutex
+	var crashes []map[string]any
 	for i := 0; i < n; i++ {
 		wg.Add(1)
 		go func(i int) {
 			defer wg.Done()
-			dir := filepath.Join(d.out, fmt.Sprintf("shard-%02d", i))
-			_ = os.MkdirAll(dir, 0755)
-			cmd := exec.Command(os.Args[0], "-test.run", "^TestVerifDriver$", "-test.timeout", "60m")
-			cmd.Env = append(os.Environ(), fmt.Sprintf("VERIF_SHARD=%d/%d", i, n), "VERIF_OUT="+dir)
-			cmd.Dir = dir
-			b, err := cmd.CombinedOutput()
-			outs[i] = string(b)
-			if err != nil {
+			resumeAfter := -1
+			for attempt := 0; attempt < 40; attempt++ {
+				name := fmt.Sprintf("shard-%02d", i)
+				if attempt > 0 {
+					name = fmt.Sprintf("shard-%02d-r%d", i, attempt)
+				}
+				dir := filepath.Join(d.out, name)
+				_ = os.MkdirAll(dir, 0755)
+				cmd := exec.Command(os.Args[0], "-test.run", "^TestVerifDriver$", "-test.timeout", "60m")
+				cmd.Env = append(os.Environ(), fmt.Sprintf("VERIF_SHARD=%d/%d", i, n), "VERIF_OUT="+dir,
+					fmt.Sprintf("VERIF_RESUME_AFTER=%d", resumeAfter))
+				cmd.Dir = dir
+				b, err := cmd.CombinedOutput()
+				outs[i] = string(b)
+				if err == nil {
+					errs[i] = nil
+					return
+				}
 				tail := outs[i]
 				if len(tail) > 3000 {
 					tail = tail[len(tail)-3000:]
 				}
 				errs[i] = fmt.Errorf("shard %d: %v\n%s", i, err, tail)
+				// a child that marked its current job before dying is resumed after that job
+				cur, rerr := os.ReadFile(filepath.Join(dir, "current.json"))
+				if rerr != nil {
+					return
+				}
+				var m map[string]any
+				if json.Unmarshal(cur, &m) != nil {
+					return
+				}
+				job, _ := m["job"].(float64)
+				head := outs[i]
+				if len(head) > 1500 {
+					head = head[:1500]
+				}
+				crashMu.Lock()
+				crashes = append(crashes, map[string]any{"shard": i, "job": int(job), "current": m, "error": err.Error(), "output_head": head})
+				crashMu.Unlock()
+				resumeAfter = int(job)
+				errs[i] = nil
 			}
 		}(i)
 	}
 	wg.Wait()
 	crashed := 0
+	if len(crashes) > 0 {
+		_ = vWriteJSON(filepath.Join(d.out, "crashes.json"), crashes)
+	}
+	d.set("job_crashes", len(crashes))
 	for i := 0; i < n; i++ {
 		if errs[i] != nil {
 			crashed++
 			_ = os.WriteFile(filepath.Join(d.out, fmt.Sprintf("shard-%02d.crash.txt", i)), []byte(errs[i].Error()+"\n"+outs[i]), 0644)
 			continue
 		}
-		b, err := os.ReadFile(filepath.Join(d.out, fmt.Sprintf("shard-%02d", i), "summary.json"))
-		if err != nil {
-			return err
-		}
-		var m map[string]any
-		if err := json.Unmarshal(b, &m); err != nil {
-			return err
-		}
-		for k, v := range m {
-			if f, ok := v.(float64); ok {
-				d.add(k, int(f))
+		dirs, _ := filepath.Glob(filepath.Join(d.out, fmt.Sprintf("shard-%02d*", i)))
+		for _, dir := range dirs {
+			b, err := os.ReadFile(filepath.Join(dir, "summary.json"))
+			if err != nil {
+				continue // an attempt that died wrote no summary
+			}
+			var m map[string]any
+			if err := json.Unmarshal(b, &m); err != nil {
+				return err
+			}
+			for k, v := range m {
+				if f, ok := v.(float64); ok {
+					d.add(k, int(f))
+				}
 			}
 		}
 	}
@@ -79,4 +117,19 @@ func vShards(d *vCtx, n int, child func(i, n int) error) error {
 		}
 	}
 	return nil
+}
+
+// vResumeAfter: jobs with an index <= this value were already attempted by an earlier
+// incarnation of this shard (the last of them killed it).
+func vResumeAfter() int {
+	n, err := strconv.Atoi(os.Getenv("VERIF_RESUME_AFTER"))
+	if err != nil {
+		return -1
+	}
+	return n
+}
+
+// vMarkCurrent records the job about to run, so that a crash can be attributed to it.
+func vMarkCurrent(d *vCtx, job int, v any) {
+	_ = vWriteJSON(d.path("current.json"), map[string]any{"job": job, "case": v})
 }
